@@ -58,7 +58,8 @@ def _tensor(t, with_name=True):
 
 
 class Canon:
-    def __init__(self, ir_version=None) -> None:
+    def __init__(self, ir_version=None, attr_tensor_names=True) -> None:
+        self.attr_tensor_names = attr_tensor_names
         self.ids: dict[int, int] = {}
         self.ir_version = ir_version  # applies to nested graphs as well (device configurations exist from 11 on)
 
@@ -107,9 +108,9 @@ class Canon:
         elif t == ir.AttributeType.GRAPHS:
             val = tuple(self.graph(g, self.ir_version) for g in a.value)
         elif t == ir.AttributeType.TENSOR:
-            val = _tensor(a.value)
+            val = _tensor(a.value, self.attr_tensor_names)
         elif t == ir.AttributeType.TENSORS:
-            val = tuple(_tensor(x) for x in a.value)
+            val = tuple(_tensor(x, self.attr_tensor_names) for x in a.value)
         elif t in (ir.AttributeType.TYPE_PROTO,):
             val = repr(a.value)
         elif t in (ir.AttributeType.TYPE_PROTOS,):
@@ -156,13 +157,15 @@ class Canon:
         return (f.domain, f.name, _s(f.overload), inputs, nodes, outputs, attrs, _s(f.doc_string), tuple(sorted(f.opset_imports.items())), tuple(sorted(f.metadata_props.items())))
 
 
-def canon_model(m) -> tuple:
+def canon_model(m, attr_tensor_names=True) -> tuple:
+    """attr_tensor_names=False: leave the own names of attribute tensors out (used when one tensor object is shared by
+    differently named initializers AND an attribute: the object has a single name field, the proto one name per use)."""
     irv = m.ir_version
-    c = Canon(irv)
+    c = Canon(irv, attr_tensor_names)
     main = c.graph(m.graph, irv)
     fns = []
     for key, f in m.functions.items():
-        fc = Canon(irv)
+        fc = Canon(irv, attr_tensor_names)
         fns.append((tuple(key), fc.function(f, irv)))
     dcs = c.dc(tuple(m.device_configurations)) if irv >= 11 else ()
     return (
